@@ -64,6 +64,7 @@ type VC struct {
 	paramVals  []Value // symbolic arguments of the function under proof
 	preState   *State  // its entry state
 	pendingAlt *retEdge // second group of return edges of the inlined call just executed (see execInstrs)
+	pendingMore []*retEdge // further groups (contracts with "splitreturns": one per way of reaching `return true`)
 }
 
 func newVC(p *Program, fn *ssa.Function) *VC {
@@ -298,6 +299,22 @@ func (fr *Frame) execRegion(l *Loop, headIn []*Edge, preset *State) *regionOut {
 		}
 		done[b] = true
 		var st *State
+		if !(b == head && preset != nil) && len(incoming[b]) > 1 &&
+			((fr.contract != nil && fr.contract.SplitReturns && fr.fn != fr.vc.top && returnsTrue(b)) || (fr.fn == fr.vc.top && fr.splitEdgesInto(b, incoming[b]))) {
+			// "splitreturns": the block that returns true is executed once per incoming edge (one per failing step of an
+			// unrolled chain), so that each way of failing stays a return edge - and a group in the caller - of its own
+			for _, e := range incoming[b] {
+				if e.St == nil || e.St.Reach == TFalse {
+					continue
+				}
+				if st1 := fr.enterBlock(b, []*Edge{e}); st1 != nil {
+					for _, oe := range fr.execBlock(b, st1, l) {
+						route(oe)
+					}
+				}
+			}
+			continue
+		}
 		if b == head && preset != nil {
 			st = preset
 		} else {
@@ -311,6 +328,52 @@ func (fr *Frame) execRegion(l *Loop, headIn []*Edge, preset *State) *regionOut {
 		}
 	}
 	return out
+}
+
+// splitEdgesInto: in the function under proof, a block that only returns and is entered by several edges from one and the same
+// predecessor block - which happens only when that block's tail ran once per return group of a "splitreturns" callee - is
+// executed per edge, so that the groups reach the postconditions as separate return edges
+func (fr *Frame) splitEdgesInto(b *ssa.BasicBlock, in []*Edge) bool {
+	if len(b.Instrs) == 0 {
+		return false
+	}
+	if _, ok := b.Instrs[len(b.Instrs)-1].(*ssa.Return); !ok {
+		return false
+	}
+	for _, ins := range b.Instrs[:len(b.Instrs)-1] {
+		switch ins.(type) {
+		case *ssa.DebugRef, *ssa.RunDefers:
+		default:
+			return false
+		}
+	}
+	for _, e := range in {
+		if e.From != in[0].From {
+			return false
+		}
+	}
+	return true
+}
+
+// returnsTrue: the block consists of `return true` (plus debug references)
+func returnsTrue(b *ssa.BasicBlock) bool {
+	if len(b.Instrs) == 0 {
+		return false
+	}
+	r, ok := b.Instrs[len(b.Instrs)-1].(*ssa.Return)
+	if !ok || len(r.Results) != 1 {
+		return false
+	}
+	c, ok := r.Results[0].(*ssa.Const)
+	if !ok || c.Value == nil {
+		return false
+	}
+	for _, ins := range b.Instrs[:len(b.Instrs)-1] {
+		if _, dbg := ins.(*ssa.DebugRef); !dbg {
+			return false
+		}
+	}
+	return c.Value.String() == "true"
 }
 
 func (fr *Frame) rpo(head *ssa.BasicBlock, in func(*ssa.BasicBlock) bool) []*ssa.BasicBlock {
